@@ -9,8 +9,9 @@ Local Open Scope N_scope.
 
 Section Wrapper.
   Variable d : dfa.
-  Variables ids modes statuses : list N.
-  Notation payload := (payload_at ids modes statuses).
+  Variable ids : list N.
+  Variable tb : dtabs.
+  Notation payload := (payload_at ids tb).
 
   Notation item := (item_of payload d).
   Notation tstate := (st N pitem).
@@ -29,7 +30,7 @@ Section Wrapper.
     cbn [drain] in H. destruct (sres s) as [|b r].
     - inversion H; subst. split; [exact Hc|exact I].
     - destruct (dbyte (set_res s r) b) as [s1 o1] eqn:Hb.
-      destruct (decode_byte_cand_ok d ids modes statuses _ _ _ _ Hb Hc) as [Hc1 Ho1].
+      destruct (decode_byte_cand_ok d ids tb _ _ _ _ Hb Hc) as [Hc1 Ho1].
       destruct o1 as [t|].
       + inversion H; subst. split; assumption.
       + apply (IH _ _ _ H Hc1).
@@ -41,7 +42,7 @@ Section Wrapper.
     induction input as [|b r IH]; intros s s' o rest H Hc.
     - cbn in H. inversion H; subst. split; [exact Hc|exact I].
     - cbn [scan_input] in H. destruct (dbyte s b) as [s1 o1] eqn:Hb.
-      destruct (decode_byte_cand_ok d ids modes statuses _ _ _ _ Hb Hc) as [Hc1 Ho1].
+      destruct (decode_byte_cand_ok d ids tb _ _ _ _ Hb Hc) as [Hc1 Ho1].
       destruct o1 as [t|].
       + inversion H; subst. split; assumption.
       + apply (IH _ _ _ _ H Hc1).
@@ -124,11 +125,12 @@ End Wrapper.
 (* ------------------------------------------------------------------ *)
 Section Main.
   Variable d : dfa.
-  Variables ids modes statuses : list N.
+  Variable ids : list N.
+  Variable tb : dtabs.
   Variables VL VT VC : cert.
-  Hypothesis Hcerts : certs_ok d ids VL VT VC = true.
+  Hypothesis Hcerts : certs_ok d ids tb VL VT VC = true.
 
-  Notation payload := (payload_at ids modes statuses).
+  Notation payload := (payload_at ids tb).
   Notation item := (item_of payload d).
   Notation run := (run N (d_start d) (d_delta d)).
 
@@ -145,7 +147,7 @@ Section Main.
     unfold t_munch. eapply Forall_impl; [|exact H]. intros t [(q & Hq & Ha & Ht)|Ht].
     - rewrite Ht. unfold mk_tok. destruct (item q (span t)) as [it|] eqn:E; [|exact I].
       destruct it as [e|e|site]; try exact I. cbn.
-      apply (item_no_panic d ids modes statuses VL VT VC Hcerts _ _ Hq Ha site E).
+      apply (item_no_panic d ids tb VL VT VC Hcerts _ _ Hq Ha site E).
     - rewrite Ht. exact I.
   Qed.
 
@@ -184,8 +186,105 @@ Section Main.
     Inv N pitem (d_start d) (d_delta d) (d_accepting d) (d_terminal d) item s ->
     call_of d s b = Some (q', w) -> item q' w <> Some (IPanic site).
   Proof.
-    intros HI Hc. destruct (call_accepted d ids modes statuses s b q' w HI Hc) as [Hq Ha].
-    apply (item_no_panic d ids modes statuses VL VT VC Hcerts _ _ Hq Ha site).
+    intros HI Hc. destruct (call_accepted d ids tb s b q' w HI Hc) as [Hq Ha].
+    apply (item_no_panic d ids tb VL VT VC Hcerts _ _ Hq Ha site).
+  Qed.
+
+  (* ---------------------------------------------------------------- *)
+  (* run level: the decoder with panics propagated (Events.v, `_c` loops) never panics *)
+
+  Notation tstate := (st N pitem).
+  Notation TInv := (Inv N pitem (d_start d) (d_delta d) (d_accepting d) (d_terminal d) item).
+
+  Lemma call_panic_none (s : tstate) b : TInv s -> call_panic d payload s b = None.
+  Proof.
+    intros HI. unfold call_panic. destruct (call_of d s b) as [[q' w]|] eqn:Hc; [|reflexivity].
+    destruct (call_accepted d ids tb s b q' w HI Hc) as [Hq Ha].
+    destruct (item q' w) as [[e|e|site]|] eqn:E; try reflexivity.
+    exfalso. apply (item_no_panic d ids tb VL VT VC Hcerts _ _ Hq Ha site E).
+  Qed.
+
+  Lemma dbyte_c_ok (s : tstate) b : TInv s ->
+    dbyte_c d payload s b = Ok (decode_byte N pitem (d_start d) (d_delta d) (d_accepting d) (d_terminal d) item s b).
+  Proof. intros HI. unfold dbyte_c. rewrite (call_panic_none s b HI). reflexivity. Qed.
+
+  Lemma drain_c_ok fuel : forall s : tstate, TInv s ->
+    drain_c d payload fuel s = drain N pitem (d_start d) (d_delta d) (d_accepting d) (d_terminal d) item fuel s.
+  Proof.
+    induction fuel as [|f IH]; intros s HI; [reflexivity|].
+    cbn [drain_c drain]. destruct (sres s) as [|b r]; [reflexivity|].
+    assert (HI' : TInv (set_res s r)) by exact HI.
+    rewrite (dbyte_c_ok _ b HI'). cbn [bind].
+    destruct (decode_byte N pitem (d_start d) (d_delta d) (d_accepting d) (d_terminal d) item (set_res s r) b) as [s1 o1] eqn:Hb.
+    destruct o1; [reflexivity|]. apply IH.
+    apply (decode_byte_Inv N pitem (d_start d) (d_delta d) (d_accepting d) (d_terminal d) item _ _ _ _ Hb HI').
+  Qed.
+
+  Lemma scan_c_ok input : forall s : tstate, TInv s ->
+    scan_c d payload s input = Ok (scan_input N pitem (d_start d) (d_delta d) (d_accepting d) (d_terminal d) item s input).
+  Proof.
+    induction input as [|b r IH]; intros s HI; [reflexivity|].
+    cbn [scan_c scan_input]. rewrite (dbyte_c_ok _ b HI). cbn [bind].
+    destruct (decode_byte N pitem (d_start d) (d_delta d) (d_accepting d) (d_terminal d) item s b) as [s1 o1] eqn:Hb.
+    destruct o1; [reflexivity|]. apply IH.
+    apply (decode_byte_Inv N pitem (d_start d) (d_delta d) (d_accepting d) (d_terminal d) item _ _ _ _ Hb HI).
+  Qed.
+
+  Lemma decode_c_ok (s : tstate) input : TInv s -> decode_c d payload s input = t_decode d payload s input.
+  Proof.
+    intros HI. unfold decode_c, t_decode, decode. rewrite (drain_c_ok _ s HI).
+    destruct (drain N pitem (d_start d) (d_delta d) (d_accepting d) (d_terminal d) item (S (length (sres s))) s)
+      as [[s1 o1]| | |] eqn:Hd; cbn [bind]; try reflexivity.
+    destruct o1; [reflexivity|]. apply scan_c_ok.
+    apply (drain_Inv N pitem (d_start d) (d_delta d) (d_accepting d) (d_terminal d) item _ _ _ _ Hd HI).
+  Qed.
+
+  Lemma tty_decode_into_c_ok fuel : forall (s : tstate) input, TInv s ->
+    tty_decode_into_c d payload fuel s input = tty_decode_into d payload fuel s input /\
+    forall ts s' rest, tty_decode_into d payload fuel s input = Ok (ts, s', rest) -> TInv s'.
+  Proof.
+    induction fuel as [|f IH]; intros s input HI; [split; [reflexivity|discriminate]|].
+    cbn [tty_decode_into_c tty_decode_into]. unfold tty_decode_c, tty_decode. rewrite (decode_c_ok s input HI).
+    destruct (t_decode d payload s input) as [[[s1 o] rest1]| | |] eqn:E; cbn [bind]; try (split; [reflexivity|discriminate]).
+    assert (H1 : TInv s1)
+      by exact (decode_Inv N pitem (d_start d) (d_delta d) (d_accepting d) (d_terminal d) item _ _ _ _ _ E HI).
+    assert (Hnone : forall (ts : list (tok pitem)) (s' : tstate) (rest : list N), Ok (@nil (tok pitem), s1, rest1) = Ok (ts, s', rest) -> TInv s')
+      by (intros ts s' rest H; inversion H; subst; exact H1).
+    destruct o as [[it sp|[|b0 sp]]|]; cbn [bind]; try (split; [reflexivity|exact Hnone]).
+    - destruct (IH s1 rest1 H1) as [-> Hinv]. split; [reflexivity|].
+      destruct (tty_decode_into d payload f s1 rest1) as [[[ts2 s2] r2]| | |] eqn:E2; cbn [bind]; try discriminate.
+      intros ts s' rest H; inversion H; subst. apply (Hinv _ _ _ eq_refl).
+    - destruct (IH s1 rest1 H1) as [-> Hinv]. split; [reflexivity|].
+      destruct (tty_decode_into d payload f s1 rest1) as [[[ts2 s2] r2]| | |] eqn:E2; cbn [bind]; try discriminate.
+      intros ts s' rest H; inversion H; subst. apply (Hinv _ _ _ eq_refl).
+  Qed.
+
+  Lemma tty_feed_c_ok fuel chunks : forall s : tstate, TInv s ->
+    tty_feed_c d payload fuel s chunks = tty_feed d payload fuel s chunks.
+  Proof.
+    induction chunks as [|c cs IH]; intros s HI; [reflexivity|].
+    cbn [tty_feed_c tty_feed]. destruct (tty_decode_into_c_ok fuel s c HI) as [-> Hinv].
+    destruct (tty_decode_into d payload fuel s c) as [[[t1 s1] r1]| | |] eqn:E; cbn [bind]; try reflexivity.
+    rewrite (IH s1 (Hinv _ _ _ eq_refl)). reflexivity.
+  Qed.
+
+  (* every byte string, every partition into reads: no panic anywhere in the run (including in
+     candidates that a longer match replaces), same events as tty_total *)
+  Theorem tty_total_checked (chunks : list (list N)) (fuel : nat) :
+    (length (concat chunks) + 3 <= fuel)%nat ->
+    exists s',
+      tty_feed_c d payload fuel (t_init d) chunks = Ok (fst (t_munch d payload (concat chunks)), s') /\
+      tty_decode_c d payload s' [] = Ok (s', None, []).
+  Proof.
+    intros Hf. destruct (tty_total chunks fuel Hf) as (s' & HF & Hb & Hd & _).
+    exists s'. rewrite tty_feed_c_ok by apply Inv_init. split; [exact HF|].
+    assert (HI : TInv s').
+    { destruct (feed_munch_inv N pitem (d_start d) (d_delta d) (d_accepting d) (d_terminal d) item chunks fuel Hf)
+        as (s2 & HF2 & _ & HI2).
+      rewrite tty_feed_eq in HF by exact I. unfold t_feed, t_init in HF. rewrite HF2 in HF.
+      inversion HF; subst s2. exact HI2. }
+    unfold tty_decode_c. rewrite (decode_c_ok s' [] HI).
+    unfold tty_decode in Hd. exact Hd.
   Qed.
 End Main.
 
@@ -274,5 +373,69 @@ Section U8Total.
     - cbn [u8_feed]. destruct (u8_drain_total (S (length c)) s c Hi) as (x1 & s1 & E1 & Hi1 & A1); [lia|].
       rewrite E1. cbn [bind]. destruct (IH s1 Hi1) as (x2 & s2 & E2 & A2). rewrite E2. cbn [bind].
       exists (x1 ++ x2), s2. split; [reflexivity|]. apply Forall_app. split; assumption.
+  Qed.
+
+  (* ---- chunking independence of Utf8Decoder ---- *)
+
+  Lemma u8_drain_mono fuel : forall s input r fuel',
+    u8_drain d fuel s input = Ok r -> (fuel <= fuel')%nat -> u8_drain d fuel' s input = Ok r.
+  Proof.
+    induction fuel as [|f IH]; intros s input r fuel' H Hle; [discriminate|].
+    destruct fuel' as [|f']; [lia|]. cbn [u8_drain] in *.
+    destruct (u8_decode d s input) as [[[s1 o] rest]| | |]; cbn [bind] in *; try discriminate.
+    destruct o as [x|]; [|exact H].
+    destruct (u8_drain d f s1 rest) as [[xs s2]| | |] eqn:E; cbn [bind] in H; try discriminate.
+    rewrite (IH _ _ _ f' E ltac:(lia)). exact H.
+  Qed.
+
+  Lemma u8_decode_app a : forall s b,
+    match u8_decode d s a with
+    | Ok (s', Some x, rest) => u8_decode d s (a ++ b) = Ok (s', Some x, rest ++ b)
+    | Ok (s', None, _) => u8_decode d s (a ++ b) = u8_decode d s' b
+    | _ => True
+    end.
+  Proof.
+    induction a as [|c a IH]; intros s b; [reflexivity|].
+    cbn [app u8_decode]. destruct (d_delta d (uq s) c) as [q'|]; [|reflexivity].
+    destruct (4 <=? length (ubuf s))%nat; [exact I|].
+    destruct (d_accepting d q').
+    - destruct (utf8_decode (ubuf s ++ [c])) as [[c'|]| | |]; cbn [bind]; try exact I; reflexivity.
+    - apply IH.
+  Qed.
+
+  Lemma u8_drain_app fuel : forall s a x1 s1,
+    u8_drain d fuel s a = Ok (x1, s1) ->
+    forall b fuel2 x2 s2, u8_drain d fuel2 s1 b = Ok (x2, s2) ->
+    u8_drain d (fuel + fuel2) s (a ++ b) = Ok (x1 ++ x2, s2).
+  Proof.
+    induction fuel as [|f IH]; intros s a x1 s1 H b fuel2 x2 s2 H2; [discriminate|].
+    cbn [u8_drain] in H. pose proof (u8_decode_app a s b) as HA.
+    destruct (u8_decode d s a) as [[[s' o] rest]| | |]; cbn [bind] in H; try discriminate.
+    destruct o as [x|].
+    - destruct (u8_drain d f s' rest) as [[xs s3]| | |] eqn:E; cbn [bind] in H; try discriminate.
+      inversion H; subst. cbn [plus u8_drain]. rewrite HA. cbn [bind].
+      rewrite (IH _ _ _ _ E _ _ _ _ H2). reflexivity.
+    - inversion H; subst. cbn [app].
+      apply (u8_drain_mono fuel2); [|lia].
+      destruct fuel2 as [|f2]; [discriminate|]. cbn [u8_drain] in *. rewrite HA. exact H2.
+  Qed.
+
+  (* any partition into reads gives what one read of the whole stream gives *)
+  Theorem u8_feed_chunking chunks : forall s,
+    u8_inv s -> u8_feed d s chunks = u8_feed d s [concat chunks].
+  Proof.
+    induction chunks as [|c cs IH]; intros s Hi.
+    - cbn [concat u8_feed u8_drain u8_decode length bind app]. reflexivity.
+    - cbn [u8_feed concat].
+      destruct (u8_drain_total (S (length c)) s c Hi) as (x1 & s1 & E1 & Hi1 & _); [lia|].
+      rewrite E1. cbn [bind]. rewrite (IH s1 Hi1). cbn [u8_feed].
+      destruct (u8_drain_total (S (length (concat cs))) s1 (concat cs) Hi1) as (x2 & s2 & E2 & _ & _); [lia|].
+      rewrite E2. cbn [bind].
+      pose proof (u8_drain_app _ _ _ _ _ E1 _ _ _ _ E2) as HA.
+      destruct (u8_drain_total (S (length (c ++ concat cs))) s (c ++ concat cs) Hi) as (x3 & s3 & E3 & _ & _); [lia|].
+      rewrite E3. cbn [bind].
+      pose proof (u8_drain_mono _ _ _ _ (S (length c) + S (length (concat cs)) + S (length (c ++ concat cs))) HA ltac:(lia)) as M1.
+      pose proof (u8_drain_mono _ _ _ _ (S (length c) + S (length (concat cs)) + S (length (c ++ concat cs))) E3 ltac:(lia)) as M2.
+      rewrite M1 in M2. inversion M2; subst. rewrite !app_nil_r. reflexivity.
   Qed.
 End U8Total.
